@@ -175,7 +175,98 @@ def expand(arg: tuple) -> dict:
     return out
 
 
+def instance_histories(tier: str) -> dict:
+    """Histories on ONE store object (the BFS above makes a new store object for every operation, so it cannot see state a
+    store keeps in memory): every sequence up to the depth bound over save / load of two ids, in-place mutation of the object
+    last passed to save, and in-place mutation of the object last returned by load.  Model: a dict of deep copies taken at
+    save time; every load must return a value equal to that snapshot, through the same object and through a fresh one."""
+    import copy
+    import itertools
+    from ml_pipeline_engine.artifact_store.enums import DataFormat
+    from ml_pipeline_engine.artifact_store.store.filesystem import FileSystemArtifactStore
+    depth = 3 if tier == 'quick' else 5
+    ops = ['S:a', 'S:b', 'L:a', 'L:b', 'MS', 'ML']
+    out = dict(transitions=0, histories=0, viol=[])
+    loop = asyncio.new_event_loop()
+
+    class _A:          # _A.run() per operation costs a loop each; one loop serves the whole pass
+        run = staticmethod(loop.run_until_complete)
+    base = tempfile.mkdtemp(prefix='mc_c18i_', dir=os.environ.get('TMPDIR') or None)
+    try:
+        for fmt in ('PICKLE', 'JSON'):
+            for L in range(2, depth + 1):
+                for k, hist in enumerate(itertools.product(ops, repeat=L)):
+                    if hist[0][0] != 'S' or not any(o[0] == 'L' for o in hist) or not any(o[0] == 'M' for o in hist):
+                        continue
+                    root = os.path.join(base, f'{fmt}{L}_{k}')
+                    os.makedirs(root)
+                    store = FileSystemArtifactStore(Ctx('m', 'p0'), root)
+                    model: t.Dict[str, t.Any] = {}
+                    last_saved = last_loaded = None
+                    n = 0
+                    out['histories'] += 1
+                    for o in hist:
+                        out['transitions'] += 1
+                        msg = None
+                        if o[0] == 'S':
+                            i = o[2]
+                            n += 1
+                            v = {'k': [1, n]}
+                            try:
+                                _A.run(store.save(i, v, fmt=DataFormat[fmt]))
+                                if i in model:
+                                    msg = 'second save under an existing key succeeded'
+                                model[i] = copy.deepcopy(v)
+                                last_saved = v
+                            except Exception as e:  # noqa: BLE001
+                                if i not in model:
+                                    msg = f'save raised {type(e).__name__}'
+                        elif o[0] == 'L':
+                            i = o[2]
+                            for who, st in (('the same store object', store), ('a fresh store object', FileSystemArtifactStore(Ctx('m', 'p0'), root))):
+                                try:
+                                    got = _A.run(st.load(i))
+                                    if i not in model:
+                                        msg = f'load of a key never saved returned {got!r}'
+                                    elif got != model[i]:
+                                        msg = f'load through {who} returned {got!r}; saved {model[i]!r}'
+                                    if st is store:
+                                        last_loaded = got
+                                except Exception as e:  # noqa: BLE001
+                                    if i in model:
+                                        msg = f'load through {who} raised {type(e).__name__}'
+                        elif o == 'MS' and last_saved is not None:
+                            last_saved['k'].append('mutated-after-save')
+                        elif o == 'ML' and last_loaded is not None:
+                            last_loaded['k'].append('mutated-after-load')
+                        if msg:
+                            out['viol'].append(dict(symptom='store-disagrees-with-model', detail=f'{fmt}, one store object, {list(hist)}: at {o}: {msg}',
+                                                    history=list(hist), key='i%08x' % (hash((fmt, hist)) & 0xffffffff), tags=[]))
+                            break
+                    shutil.rmtree(root, ignore_errors=True)
+                    if len(out['viol']) >= 5:
+                        return out
+    finally:
+        shutil.rmtree(base, ignore_errors=True)
+        loop.close()
+    return out
+
+
 def run(prop: str, tier: str, seed: int) -> dict:
+    res = _run(prop, tier, seed)
+    if res.get('internal'):
+        return res
+    ih = instance_histories(tier)
+    res['violations'] = res['violations'] + ih['viol']
+    res['coverage']['transitions'] += ih['transitions']
+    res['coverage']['traces_validated_against_impl'] = res['coverage']['transitions']
+    res['coverage']['one_store_object_histories'] = dict(histories=ih['histories'], transitions=ih['transitions'],
+                                                         operations=['save a', 'save b', 'load a', 'load b', 'mutate last saved object',
+                                                                     'mutate last loaded object'], depth=3 if tier == 'quick' else 5)
+    return res
+
+
+def _run(prop: str, tier: str, seed: int) -> dict:
     if tier == 'quick':
         return search('quick', 3, seed)
     # thorough: the small alphabet one level deeper, then the full alphabet (more ids, formats, values, contexts) to depth 2
